@@ -367,6 +367,125 @@ static void check_nested(std::vector<Fail>& f, mc::Report& rep)
         f.push_back({ "equal-values-hash-differently", "tuple / pair containing +0.0 vs -0.0" });
 }
 
+// ---- per-position sensitivity for nested standard types: all pairs of a small grid; equal values hash equal, and for
+// every top-level component the pairs that differ in exactly that component must (nearly) all hash differently - a hash
+// that loses a component in a particular POSITION (after a nested tuple, the second of a pair, the tail of a wide string)
+// collides on all of them
+template <typename T, typename Diff>
+static void check_positions(const std::string& name, const std::vector<T>& g, int ncomp, Diff&& differing_component, std::vector<Fail>& f, mc::Report& rep)
+{
+    std::vector<long> pairs(ncomp, 0), coll(ncomp, 0);
+    for (size_t i = 0; i < g.size(); i++)
+        for (size_t j = 0; j < g.size(); j++)
+        {
+            rep.count("executions");
+            rep.transitions.insert(mc::hash(name + std::to_string(i) + "," + std::to_string(j)));
+            bool eq = g[i] == g[j];
+            bool heq = nitro::lang::hash(g[i]) == nitro::lang::hash(g[j]);
+            if (eq && !heq)
+                f.push_back({ "equal-values-hash-differently", name + " #" + std::to_string(i) + " vs #" + std::to_string(j) });
+            int c = eq ? -1 : differing_component(g[i], g[j]);
+            if (c >= 0)
+            {
+                pairs[c]++;
+                coll[c] += heq;
+            }
+        }
+    for (int c = 0; c < ncomp; c++)
+        if (pairs[c] && coll[c] * 10 > pairs[c])
+            f.push_back({ "hash-ignores-a-component", name + ": " + std::to_string(coll[c]) + " of " + std::to_string(pairs[c]) + " pairs that differ only in component #" +
+                                                          std::to_string(c) + " hash equal" });
+    nitro::lang::unordered_set<T> s(g.begin(), g.end());
+    std::vector<T> distinct;
+    for (auto& x : g)
+        if (std::find(distinct.begin(), distinct.end(), x) == distinct.end())
+            distinct.push_back(x);
+    if (s.size() != distinct.size())
+        f.push_back({ "hash-container-size-differs-from-distinct-keys", name + ": " + std::to_string(s.size()) + " of " + std::to_string(distinct.size()) });
+    for (auto& x : g)
+        if (!s.count(x))
+            f.push_back({ "hash-container-misses-an-inserted-key", name });
+}
+template <typename A, typename B>
+static int diff2(const A& xa, const A& ya, const B& xb, const B& yb)
+{
+    int d = (xa != ya) + (xb != yb);
+    return d != 1 ? -1 : xa != ya ? 0 : 1;
+}
+template <typename A, typename B, typename C>
+static int diff3(const A& xa, const A& ya, const B& xb, const B& yb, const C& xc, const C& yc)
+{
+    int d = (xa != ya) + (xb != yb) + (xc != yc);
+    return d != 1 ? -1 : xa != ya ? 0 : xb != yb ? 1 : 2;
+}
+static void check_nested_positions(std::vector<Fail>& f, mc::Report& rep)
+{
+    using std::get;
+    {
+        using T = std::tuple<int, std::tuple<int, int>>;
+        std::vector<T> g;
+        for (int a : { 1, 9, -2 })
+            for (int b : { 2, 3 })
+                for (int c : { 3, 4 })
+                    g.emplace_back(a, std::make_tuple(b, c));
+        check_positions("tuple<int,tuple<int,int>>", g, 2, [](const T& x, const T& y) { return diff2(get<0>(x), get<0>(y), get<1>(x), get<1>(y)); }, f, rep);
+    }
+    {
+        using T = std::tuple<std::string, int, P2>;
+        std::vector<T> g;
+        for (auto n : { "n", "", "name" })
+            for (int id : { 0, 7 })
+                for (int px : { 1, 2 })
+                    g.emplace_back(n, id, P2(px, 5));
+        check_positions("tuple<string,int,P2>", g, 3, [](const T& x, const T& y) { return diff3(get<0>(x), get<0>(y), get<1>(x), get<1>(y), get<2>(x), get<2>(y)); }, f, rep);
+    }
+    {
+        using T = std::tuple<int, std::pair<int, int>, int>;
+        std::vector<T> g;
+        for (int a : { 1, 2 })
+            for (int b : { 3, 4 })
+                for (int c : { 3, 4, 5 })
+                    for (int d : { 0, 6 })
+                        g.emplace_back(a, std::make_pair(b, c), d);
+        check_positions("tuple<int,pair<int,int>,int>", g, 3, [](const T& x, const T& y) { return diff3(get<0>(x), get<0>(y), get<1>(x), get<1>(y), get<2>(x), get<2>(y)); }, f, rep);
+    }
+    {
+        using T = std::pair<int, int>;
+        std::vector<T> g;
+        for (int a : { 1, 2, 3 })
+            for (int b : { 1, 2, 3, 4 })
+                g.emplace_back(a, b);
+        check_positions("pair<int,int>", g, 2, [](const T& x, const T& y) { return diff2(x.first, y.first, x.second, y.second); }, f, rep);
+    }
+    {
+        using T = std::tuple<int, std::variant<int, std::string>, std::shared_ptr<int>>;
+        std::vector<T> g;
+        std::vector<std::shared_ptr<int>> ptrs = { std::make_shared<int>(1), std::make_shared<int>(2) };
+        for (int a : { 1, 2, 3 })
+            for (int v = 0; v < 3; v++)
+                for (auto& p : ptrs)
+                    g.emplace_back(a, v < 2 ? std::variant<int, std::string>(v) : std::variant<int, std::string>(std::string("s")), p);
+        check_positions("tuple<int,variant,shared_ptr>", g, 3, [](const T& x, const T& y) { return diff3(get<0>(x), get<0>(y), get<1>(x), get<1>(y), get<2>(x), get<2>(y)); }, f, rep);
+    }
+    {
+        // strings of every character width: values that differ only in their last character
+        using T = std::tuple<std::u16string, std::u32string, std::wstring>;
+        std::vector<std::u16string> a = { u"", u"component_a", u"component_b", u"x" };
+        std::vector<std::u32string> b = { U"", U"component_a", U"component_b", U"y" };
+        std::vector<std::wstring> c = { L"", L"component_a", L"component_b", L"z" };
+        std::vector<T> g;
+        for (auto& x : a)
+            for (auto& y : b)
+                for (auto& z : c)
+                    g.emplace_back(x, y, z);
+        check_positions("tuple<u16string,u32string,wstring>", g, 3, [](const T& x, const T& y) { return diff3(get<0>(x), get<0>(y), get<1>(x), get<1>(y), get<2>(x), get<2>(y)); }, f, rep);
+        std::vector<std::u32string> single = { U"", U"a", U"ab", U"abc", U"abd", U"abcd", U"abce", U"abcdefgh", U"abcdefgx" };
+        check_positions("u32string", single, 1, [](const std::u32string&, const std::u32string&) { return 0; }, f, rep);
+        std::vector<std::u16string> single16 = { u"", u"a", u"ab", u"ac", u"abcd", u"abce", u"abcdefgh", u"abcdefgx" };
+        check_positions("u16string", single16, 1, [](const std::u16string&, const std::u16string&) { return 0; }, f, rep);
+    }
+}
+
 int main(int argc, char** argv)
 {
     auto a = mc::parse_args(argc, argv);
@@ -403,6 +522,7 @@ int main(int argc, char** argv)
                      } });
     cases.push_back({ "containers", [&](std::vector<Fail>& f, mc::Report&) { check_containers("V3", g3, f); check_containers("P2", g2, f); check_containers("W4", g4, f); } });
     cases.push_back({ "nested", [&](std::vector<Fail>& f, mc::Report& r) { check_nested(f, r); } });
+    cases.push_back({ "nested-positions", [&](std::vector<Fail>& f, mc::Report& r) { check_nested_positions(f, r); } });
     if (!a.replay.empty())
     {
         auto doc = js::load(a.replay);
